@@ -1,16 +1,18 @@
 #!/bin/sh
-# tools/seedcheck.sh <ID> [check args...] : confirm a sub-agent's seeded change in its scratch worktree, then apply it to
-# /repo, run the property's check, and undo it straight afterwards.
+# tools/seedcheck.sh <ID> [check args...] : confirm a sub-agent's seeded change in its scratch worktree and run the
+# property's check against that worktree.  The worktree is reset and the agent's patch.diff applied (no `git stash`:
+# the stash is shared by all worktrees of a repository, concurrent agents would trade changes).
 ID=$1; shift
 WT=/tmp/wt/$ID; OUT=/tmp/wtout/$ID
 set -u
+git -C $WT checkout -q -- . && git -C $WT apply $OUT/patch.diff || { echo "patch.diff does not apply to the worktree's HEAD"; exit 2; }
 echo "== worktree status"; git -C $WT status --short | head
 echo "== tests with change"; (cd $WT && /venv/bin/python -m pytest -q -p no:cacheprovider --timeout=900 2>&1 | tail -1); rm -f $WT/cbi.log
 echo "== demo with change"; (cd $WT && /venv/bin/python $OUT/demo.py >/dev/null 2>&1; echo "exit=$?")
 git -C $WT diff > /tmp/wtout/$ID/confirm.diff
-git -C $WT stash -q
+git -C $WT apply -R $OUT/patch.diff
 echo "== demo without change"; (cd $WT && /venv/bin/python $OUT/demo.py >/dev/null 2>&1; echo "exit=$?")
-git -C $WT stash pop -q
+git -C $WT apply $OUT/patch.diff
 rm -f $WT/cbi.log
 echo "== run the property's check against the worktree (PYTHONPATH puts it before /repo; /repo itself is not touched)"
 PID=$(echo $ID | cut -c1-3)
